@@ -24,7 +24,10 @@ var codeSrc = map[string]string{
 	"xeq1": "x === 1", "obj": "({z: 7})", "throw": "throw 'no'", "syntax": "syntax error(",
 }
 
-type gen struct{ r *rand.Rand }
+type gen struct {
+	r       *rand.Rand
+	scripts bool
+}
 
 var keys = []string{"a", "b", "c"}
 var vals = []interface{}{1.0, 2.0, "x"}
@@ -111,7 +114,7 @@ func (g *gen) jquery() (J, J) {
 		}
 		at, aj = append(at, qt), append(aj, qj)
 	}
-	if g.r.Intn(3) == 0 {
+	if g.scripts || g.r.Intn(3) == 0 {
 		// a script over bindings of which only some bind its variable: it throws (ReferenceError)
 		// for the others, and a condition whose script throws for any binding is an error
 		at, aj = append(at, J{"t": "code", "kind": "xeq1"}), append(aj, J{"code": codeSrc["xeq1"]})
@@ -186,17 +189,18 @@ func encTree(t *enc.Tables, q J) J {
 
 func main() {
 	var (
-		seed  = flag.Int64("seed", 1, "seed")
-		n     = flag.Int("n", 2000, "number of queries")
-		out   = flag.String("out", "query.ndjson", "output")
-		joins = flag.Bool("joins", true, "every fourth case is a directed join over heterogeneous bindings and null values")
+		seed    = flag.Int64("seed", 1, "seed")
+		n       = flag.Int("n", 2000, "number of queries")
+		out     = flag.String("out", "query.ndjson", "output")
+		joins   = flag.Bool("joins", true, "every fourth case is a directed join over heterogeneous bindings and null values")
+		scripts = flag.Bool("scripts", false, "C14: half of the cases are directed joins, each ending in a script that throws for the bindings without ?x")
 	)
 	flag.Parse()
 	core.DefaultLogger = core.NewSimpleLogger(ioutil.Discard)
 	core.DefaultVerbosity = core.NOTHING
 	t := enc.NewTables()
 	events := []J{}
-	g := &gen{rand.New(rand.NewSource(*seed))}
+	g := &gen{r: rand.New(rand.NewSource(*seed)), scripts: *scripts}
 	for i := 0; i < *n; i++ {
 		state := []string{"indexed", "linear"}[i%2]
 		ctx := core.NewContext("verif")
@@ -222,7 +226,7 @@ func main() {
 			locs[name] = loc
 		}
 		withParent := g.r.Intn(2) == 0
-		directed := *joins && i%4 == 3
+		directed := *joins && (i%4 == 3 || (*scripts && i%2 == 1))
 		facts := A{}
 		add := func(loc string, k int) {
 			for j := 0; j < k; j++ {
